@@ -66,6 +66,12 @@ TEXT = {
         "design_ref": "DESIGN.md §5 C14", "note": "Trusted: as C13 plus the model of the Display impls. The whole-description round-trip theorem is not yet proved (stated as C14_statement). Known findings: commented enum variants (custom and inline).",
         "technique": "Lean 4 proof (comment layer; counterexample by kernel evaluation) on renderer + parser models; round-trip correspondence run through the public constructors",
     },
+    "C20": {
+        "level": "Machine-checked theorems about the adapter models over a capacity-1 broadcast channel model: the tokio adapter (explicit lag-skipping loop) and the smol adapter are the same function; a poll is pending iff nothing new was set, otherwise yields the most recent value marked continuing and brings the subscriber up to date (convergence, order by cursor monotonicity); "
+                 "the subscription never ends while the state exists; a one-shot yields one final item and then ends. Both real crates are run on every history of length <= 7 (exhaustive) and 3000/60000 random ones and compared with the model, each other and the oracle.",
+        "design_ref": "DESIGN.md §5 C20", "note": "Trusted: Lean kernel; the channel crates are modelled, not verified (validated by the correspondence run on both real implementations); harness zvrt.",
+        "technique": "Lean 4 proof (case analysis on cursor vs sequence number) on hand-written adapter models; two-implementation correspondence run with manual polling",
+    },
     "C17": {
         "level": "Machine-checked theorems parametric in growth step and limit: buffer capacity never exceeds the limit (inbound: every event sequence; outbound: every operation); a lone frame is "
                  "delivered iff its wire size is below the limit, for every growth step and read-size schedule, otherwise overflow with exactly `max` bytes buffered; an outbound message is accepted iff "
